@@ -22,9 +22,16 @@ def run(tier):
     fcases = os.path.join(sc, "fp.cases.ndjson")
     filter_cases(cases, fcases, lambda e: e["op"].startswith("fp."))
     traces = []
-    for cfg, backend in ([("asm", None), ("p64", None)] if tier == "quick" else [("asm", None), ("asm", "base"), ("p64", None), ("p32", None)]):
+    for cfg, backend in ([("asm", None), ("p64", None), ("p32", None)] if tier == "quick" else [("asm", None), ("asm", "base"), ("p64", None), ("p32", None)]):
         out = os.path.join(sc, "fp.%s.%s.trace.ndjson" % (cfg, backend or "d"))
-        run.drive(FIELD, cfg, ["replay", fcases, out] + ([backend] if backend else []))
+        cs = fcases
+        if tier == "quick" and cfg != "asm":
+            # the portable configurations get a pseudo-random half of the cases each in the quick tier
+            cs = os.path.join(sc, "fp.%s.cases.ndjson" % cfg)
+            with open(fcases) as f, open(cs, "w") as o:
+                for i, line in enumerate(f):
+                    if vlib.pick_hash(i, 2, vlib.seed() + (1 if cfg == "p32" else 0)): o.write(line)
+        run.drive(FIELD, cfg, ["replay", cs, out] + ([backend] if backend else []))
         traces.append(out)
     # (3) I->S: seeded random events
     nrand = 2000 if tier == "quick" else 40000
